@@ -23,6 +23,10 @@ class ExprArraySumModel(ExprDynamicModel):
     def build(self, btor, ctx_width=-1):
         return self.arr.build_sum_expr(btor, ctx_width)
     
+    def val(self):
+        # Value over the elements' current values (for non-random lists)
+        return self.arr.get_sum_expr().val()
+
     def accept(self, v):
         v.visit_expr_array_sum(self)
     
